@@ -136,3 +136,34 @@ Example C15_nonvacuous :
   large 3 (base_strings p) = [[3; 4; 5]; [7; 8; 9; 10]] /\
   exists lin w, base_write_nocopy 3 p b (Some []) = Ok (lin, 42, w) /\ base_blength p = 49.
 Proof. vm_compute. split; [discriminate|]. split; [reflexivity|]. eexists. eexists. split; reflexivity. Qed.
+
+(* ---------- tools/gotrans phase 3: WriteStringNocopy / WriteBinaryNocopy and Base / BaseResp BLength, FastWriteNocopy, FastWrite regenerated from the Go source and proved equal to Model/Nocopy.v (Proofs/GenEquivNocopy.v); the map enumeration order is a parameter (ord), the NocopyWriter an abstract object ---------- *)
+From GV Require Import Lib.GoSem Gen.Funcs Proofs.GenLib Proofs.GenLib3 Proofs.GenEquivNocopy Proofs.GenCorollariesNocopy.
+
+Theorem C15_gen_splice_eq_copy_base :
+  forall (lg cl ad : bytes) (m : gmap bytes bytes) (ord : list bytes) (b : bytes), let p := gbase lg cl ad m ord in gmap_order_ok m ord -> glen_ok b -> base_blength p <= len b -> exists (lin : list N) (pairs : list dpair), g_base_Base_FastWriteNocopy (list dpair) xwd false lg cl ad m b false [] ord = Ok (lg, cl, ad, m, lin ++ drop (len lin) b, pairs, Z.of_N (len lin)) /\ splice (lin ++ drop (len lin) b) pairs = Ok (base_stream p ++ take (len b - len (base_stream p)) (drop (len lin) b)) /\ g_base_Base_FastWrite false lg cl ad m b ord = Ok (lg, cl, ad, m, base_stream p ++ drop (len (base_stream p)) b, Z.of_N (len (base_stream p))) /\ map fst pairs = large thr (base_strings p) /\ len lin + pieces_len pairs = len (base_stream p) /\ ins lin 0 (positions (len b) pairs) = base_stream p.
+Proof. exact (@g_C15_splice_eq_copy_base). Qed.
+
+Theorem C15_gen_splice_eq_copy_baseresp :
+  forall (ms : bytes) (cd : Z) (m : gmap bytes bytes) (ord : list bytes) (b : bytes), let p := gresp ms cd m ord in gmap_order_ok m ord -> glen_ok b -> baseresp_blength p <= len b -> exists (lin : list N) (pairs : list dpair), g_base_BaseResp_FastWriteNocopy (list dpair) xwd false ms cd m b false [] ord = Ok (ms, cd, m, lin ++ drop (len lin) b, pairs, Z.of_N (len lin)) /\ splice (lin ++ drop (len lin) b) pairs = Ok (baseresp_stream p ++ take (len b - len (baseresp_stream p)) (drop (len lin) b)) /\ g_base_BaseResp_FastWrite false ms cd m b ord = Ok (ms, cd, m, baseresp_stream p ++ drop (len (baseresp_stream p)) b, Z.of_N (len (baseresp_stream p))) /\ map fst pairs = large thr (baseresp_strings p) /\ len lin + pieces_len pairs = len (baseresp_stream p) /\ ins lin 0 (positions (len b) pairs) = baseresp_stream p.
+Proof. exact (@g_C15_splice_eq_copy_baseresp). Qed.
+
+Theorem C15_gen_splice_eq_copy_string :
+  forall (v : list N) (b : bytes), glen_ok b -> 4 + len v <= len b -> exists (lin : list N) (pairs : list dpair), g_thrift_WriteStringNocopy (list dpair) xwd b false [] v = Ok (lin ++ drop (len lin) b, pairs, Z.of_N (len lin)) /\ g_thrift_WriteBinaryNocopy (list dpair) xwd b false [] v = Ok (lin ++ drop (len lin) b, pairs, Z.of_N (len lin)) /\ splice (lin ++ drop (len lin) b) pairs = Ok (enc (IString v) ++ take (len b - len (enc (IString v))) (drop (len lin) b)) /\ g_thrift_WriteString b v = Ok (enc (IString v) ++ drop (len (enc (IString v))) b, Z.of_N (len (enc (IString v)))) /\ map fst pairs = large thr [v] /\ len lin + pieces_len pairs = len (enc (IString v)) /\ ins lin 0 (positions (len b) pairs) = enc (IString v).
+Proof. exact (@g_C15_splice_eq_copy_string). Qed.
+
+Theorem C15_gen_nil_writer_identical :
+  forall (St : Type) (meth : St -> bytes -> Z -> res (St * gerror)) (st : St) (lg cl ad : bytes) (m : gmap bytes bytes) (ord : list bytes) (b : bytes), let p := gbase lg cl ad m ord in gmap_order_ok m ord -> glen_ok b -> base_blength p <= len b -> exists st' : St, g_base_Base_FastWriteNocopy St meth false lg cl ad m b true st ord = Ok (lg, cl, ad, m, base_stream p ++ drop (len (base_stream p)) b, st', Z.of_N (len (base_stream p))).
+Proof. exact (@g_C15_nil_writer_identical). Qed.
+
+Theorem C15_gen_nil_writer_identical_baseresp :
+  forall (St : Type) (meth : St -> bytes -> Z -> res (St * gerror)) (st : St) (ms : bytes) (cd : Z) (m : gmap bytes bytes) (ord : list bytes) (b : bytes), let p := gresp ms cd m ord in gmap_order_ok m ord -> glen_ok b -> baseresp_blength p <= len b -> exists st' : St, g_base_BaseResp_FastWriteNocopy St meth false ms cd m b true st ord = Ok (ms, cd, m, baseresp_stream p ++ drop (len (baseresp_stream p)) b, st', Z.of_N (len (baseresp_stream p))).
+Proof. exact (@g_C15_nil_writer_identical_baseresp). Qed.
+
+Theorem C15_gen_below_threshold_identical :
+  forall (lg cl ad : bytes) (m : gmap bytes bytes) (ord : list bytes) (b : bytes) (log : list dpair), let p := gbase lg cl ad m ord in gmap_order_ok m ord -> glen_ok b -> base_blength p <= len b -> large thr (base_strings p) = [] -> g_base_Base_FastWriteNocopy (list dpair) xwd false lg cl ad m b false log ord = Ok (lg, cl, ad, m, base_stream p ++ drop (len (base_stream p)) b, log, Z.of_N (len (base_stream p))).
+Proof. exact (@g_C15_below_threshold_identical). Qed.
+
+Theorem C15_gen_below_threshold_identical_baseresp :
+  forall (ms : bytes) (cd : Z) (m : gmap bytes bytes) (ord : list bytes) (b : bytes) (log : list dpair), let p := gresp ms cd m ord in gmap_order_ok m ord -> glen_ok b -> baseresp_blength p <= len b -> large thr (baseresp_strings p) = [] -> g_base_BaseResp_FastWriteNocopy (list dpair) xwd false ms cd m b false log ord = Ok (ms, cd, m, baseresp_stream p ++ drop (len (baseresp_stream p)) b, log, Z.of_N (len (baseresp_stream p))).
+Proof. exact (@g_C15_below_threshold_identical_baseresp). Qed.
